@@ -5,6 +5,8 @@ exec-generated filter code; each output comes back as an exact linear form in
 the input symbols x0.., the memory symbols m1.. and the zero symbol Z, and is
 compared with the recursion of the statement.  Equality of forms is the
 difference equation for every sample value at once."""
+import collections
+import functools
 import itertools
 from fractions import Fraction
 
@@ -99,7 +101,9 @@ def cases(ctx):
     n = rng.choice([0, 1, 2, 3, 5, 8, 10])
     mem = rng.choice([("none", 0), ("list", 0), ("list", 2), ("tuple", 0),
                       ("gen", 1), ("callable", 0), ("callable", 1),
-                      ("endless", 0)])
+                      ("endless", 0), ("stream", 0), ("stream", 1),
+                      ("estream", 0), ("deque", 0), ("iter", 1),
+                      ("partial", 0)])
     zero = rng.choice(["Z", "Z", 0, 0.0, Fraction(0), Fraction(2, 3), 5])
     samples = rng.choice(["sym", "sym", "sym", "int", "frac"])
     yield ("filt", form, b, a, n, mem, zero, samples)
@@ -320,6 +324,20 @@ def run_case(ctx, case):
   elif mkind == "endless":
     memory = (Lin.sym("m%d" % (i + 1)) for i in itertools.count())
     memmodel = [Lin.sym("m%d" % (i + 1)) for i in range(lm)]
+  elif mkind == "stream":      # a Stream is iterable *and* callable
+    memory, memmodel = Stream(list(memvals)), memvals
+  elif mkind == "estream":
+    memory = Stream(Lin.sym("m%d" % (i + 1)) for i in itertools.count())
+    memmodel = [Lin.sym("m%d" % (i + 1)) for i in range(lm)]
+  elif mkind == "deque":
+    memory, memmodel = collections.deque(memvals), memvals
+  elif mkind == "iter":
+    memory, memmodel = iter(list(memvals)), memvals
+  elif mkind == "partial":     # a callable that is not a plain function
+    def _mem(vals, size):
+      called.append(size)
+      return tuple(vals)
+    memory, memmodel = functools.partial(_mem, memvals), memvals
   else:
     def memory(size, _vals=memvals):
       called.append(size)
@@ -406,7 +424,7 @@ def run_case(ctx, case):
             else "wrong-output"
       ctx.violation(key, case, index=i, got=repr(gv), want=repr(wv))
       return True
-  if mkind == "callable":
+  if mkind in ("callable", "partial"):
     ctx.count("callable-memory")
     if called != [lm]:
       ctx.violation("callable-memory/not-asked-once-for-needed-size", case,
@@ -424,7 +442,8 @@ def finish(ctx):
     ctx.need(k, 20)
   for f in ["zlist", "zdict", "llist", "ldict", "zexpr"]:
     ctx.need("form:" + f, 50)
-  for m in ["none", "list", "tuple", "gen", "callable", "endless"]:
+  for m in ["none", "list", "tuple", "gen", "callable", "endless", "stream",
+            "estream", "deque", "iter", "partial"]:
     ctx.need("memory:" + m, 50)
   ctx.need("zero:Lin", 200)
   ctx.need("outputs-compared", 5000)
